@@ -5,6 +5,9 @@ import ServiceModel.Proofs.Reachable
 namespace SM
 open Map
 
+/-- C10: the batch counter of a repeated context with a positive total does not exceed the total -/
+def TotBound (x : Ctx) : Prop := x.rep = true → 0 < x.total → (x.batch : Int) ≤ x.total
+
 /-- the allowed evolution of a context record -/
 structure CtxEvol (x y : Ctx) : Prop where
   svc : y.svc = x.svc
@@ -14,8 +17,10 @@ structure CtxEvol (x y : Ctx) : Prop where
   mod : y.mod = x.mod
   batch : x.batch ≤ y.batch
   final : x.state = .completed → y.state = .completed
+  /-- C10: a repeated context with a positive total never has more batches than its total -/
+  bnd : TotBound x → TotBound y
 
-theorem CtxEvol.refl (x : Ctx) : CtxEvol x x := ⟨rfl, rfl, rfl, rfl, rfl, Nat.le_refl _, fun h => h⟩
+theorem CtxEvol.refl (x : Ctx) : CtxEvol x x := ⟨rfl, rfl, rfl, rfl, rfl, Nat.le_refl _, fun h => h, fun h => h⟩
 
 /-- every context of `s'` comes from the context of `s` with the same id by an allowed evolution -/
 def CtxsEvol (s s' : State) : Prop :=
@@ -49,7 +54,7 @@ theorem pauseK_evol (s : State) (c : CtxId) (cons : Addr) : CtxsEvol s (pauseK s
     split; · exact CtxsEvol.refl s
     split; · exact CtxsEvol.refl s
     rename_i _ _ _ hrun
-    refine ctxsEvol_set hx rfl ⟨rfl, rfl, rfl, rfl, rfl, Nat.le_refl _, fun h => ?_⟩
+    refine ctxsEvol_set hx rfl ⟨rfl, rfl, rfl, rfl, rfl, Nat.le_refl _, fun h => ?_, fun h => h⟩
     have : x.state = .running := by simpa using hrun
     rw [this] at h; cases h
 
@@ -64,7 +69,7 @@ theorem startK_evol (s : State) (c : CtxId) (cons : Addr) : CtxsEvol s (startK s
     rename_i _ _ hp
     have hp' : x.state = .paused := by simpa using hp
     have he : CtxEvol x { x with state := .running } :=
-      ⟨rfl, rfl, rfl, rfl, rfl, Nat.le_refl _, fun h => by rw [hp'] at h; cases h⟩
+      ⟨rfl, rfl, rfl, rfl, rfl, Nat.le_refl _, (fun h => by rw [hp'] at h; cases h), fun h => h⟩
     split
     · exact ctxsEvol_set hx rfl he
     · exact ctxsEvol_set hx rfl he
@@ -77,7 +82,7 @@ theorem killK_evol (s : State) (c : CtxId) (cons : Addr) : CtxsEvol s (killK s c
     dsimp only
     split; · exact CtxsEvol.refl s
     split; · exact CtxsEvol.refl s
-    exact ctxsEvol_set hx rfl ⟨rfl, rfl, rfl, rfl, rfl, Nat.le_refl _, fun _ => rfl⟩
+    exact ctxsEvol_set hx rfl ⟨rfl, rfl, rfl, rfl, rfl, Nat.le_refl _, fun _ => rfl, fun h => h⟩
 
 theorem updateK_evol (s : State) (c : CtxId) (cons : Addr) (provs : List Addr) (thr : Nat) (cap : Option Nat)
     (timeout : Int) (freq : Nat) (total : Int) : CtxsEvol s (updateK s c cons provs thr cap timeout freq total).1 := by
@@ -97,6 +102,7 @@ theorem updateK_evol (s : State) (c : CtxId) (cons : Addr) (provs : List Addr) (
       split; · exact CtxsEvol.refl s
       split; · exact CtxsEvol.refl s
       split; · exact CtxsEvol.refl s
+      rename_i _ _ _ htot
       obtain ⟨⟨c1, c2, c3, _, _, _⟩, _, _, hr, hst, hsup⟩ := updThr_ok hu
       have hmod : x1.mod = x.mod := by
         unfold updThr at hu; dsimp only at hu
@@ -104,7 +110,28 @@ theorem updateK_evol (s : State) (c : CtxId) (cons : Addr) (provs : List Addr) (
         all_goals first
           | (simp at hu; done)
           | (injection hu with hu; subst hu; rfl)
-      refine ctxsEvol_set hx rfl ⟨c2, c1, hsup, hr, hmod, Nat.le_of_eq c3.symm, fun h => absurd h hnc⟩
+      have htotal : x1.total = x.total := by
+        unfold updThr at hu; dsimp only at hu
+        repeat' (split at hu)
+        all_goals first
+          | (simp at hu; done)
+          | (injection hu with hu; subst hu; rfl)
+      refine ctxsEvol_set hx rfl ⟨c2, c1, hsup, hr, hmod, Nat.le_of_eq c3.symm, fun h => absurd h hnc, ?_⟩
+      intro hb hrep hpos
+      have hrep' : x.rep = true := by rw [← hr]; exact hrep
+      show ((updFields x1 provs cap (effTimeout x timeout) (effFreq x freq) total).batch : Int) ≤ _
+      have hbatch : (updFields x1 provs cap (effTimeout x timeout) (effFreq x freq) total).batch = x.batch := c3
+      have htot' : (updFields x1 provs cap (effTimeout x timeout) (effFreq x freq) total).total =
+          if total ≠ 0 then total else x1.total := rfl
+      rw [hbatch]
+      rw [htot'] at hpos ⊢
+      by_cases h0 : total ≠ 0
+      · rw [if_pos h0] at hpos ⊢
+        by_cases hlt : total < (x.batch : Int)
+        · exact absurd ⟨by omega, hlt⟩ htot
+        · omega
+      · rw [if_neg h0, htotal] at hpos ⊢
+        exact hb hrep' hpos
 
 theorem respond_evol (s : State) (r : ReqId) (pv : Addr) (code : Nat) (out : OutKind) :
     CtxsEvol s (respond s r pv code out).1 := by
@@ -127,8 +154,8 @@ theorem respond_evol (s : State) (r : ReqId) (pv : Addr) (code : Nat) (out : Out
         obtain ⟨bank', bs, ea, oe, hshape, _⟩ := settle_shape hs
         subst hshape
         split
-        · exact ctxsEvol_set hx rfl ⟨rfl, rfl, rfl, rfl, rfl, Nat.le_refl _, fun h => h⟩
-        · exact ctxsEvol_set hx rfl ⟨rfl, rfl, rfl, rfl, rfl, Nat.le_refl _, fun h => h⟩
+        · exact ctxsEvol_set hx rfl ⟨rfl, rfl, rfl, rfl, rfl, Nat.le_refl _, fun h => h, fun h => h⟩
+        · exact ctxsEvol_set hx rfl ⟨rfl, rfl, rfl, rfl, rfl, Nat.le_refl _, fun h => h, fun h => h⟩
 
 end SM
 
@@ -137,7 +164,7 @@ open Map
 
 theorem CtxEvol.trans {x y z : Ctx} (h1 : CtxEvol x y) (h2 : CtxEvol y z) : CtxEvol x z :=
   ⟨h2.svc.trans h1.svc, h2.cons.trans h1.cons, h2.super.trans h1.super, h2.rep.trans h1.rep, h2.mod.trans h1.mod,
-   Nat.le_trans h1.batch h2.batch, fun h => h2.final (h1.final h)⟩
+   Nat.le_trans h1.batch h2.batch, fun h => h2.final (h1.final h), fun h => h2.bnd (h1.bnd h)⟩
 
 theorem CtxsEvol.trans {a b c : State} (h1 : CtxsEvol a b) (h2 : CtxsEvol b c) : CtxsEvol a c := by
   intro k z hz
@@ -175,10 +202,11 @@ theorem expireBatch_evol (s : State) (c : CtxId) (h : Inv s) (hnp : (expireBatch
       dsimp only at hnp ⊢
       rcases Option.eq_none_or_eq_some (expirePending s c x).1.panic with hp | ⟨m, hp⟩
       · simp only [hp]
-        obtain ⟨_, i2, _, i4, i5, _, i7⟩ := expirePending_spec s c x h hx hp
+        obtain ⟨_, i2, _, i4, i5, i6, i7⟩ := expirePending_spec s c x h hx hp
         have h1 : CtxsEvol s (expirePending s c x).1.s := ctxsEvol_of_eq i2.2.2.2.2.1
         refine h1.trans (expireTail_evol _ c x _ (by rw [i2.2.2.2.2.1]; exact hx) ?_)
-        exact ⟨i4.svc, i4.cons, i4.super, i4.rep, i7, Nat.le_of_eq i4.batch.symm, fun hh => by rw [i5]; exact hh⟩
+        exact ⟨i4.svc, i4.cons, i4.super, i4.rep, i7, Nat.le_of_eq i4.batch.symm, fun hh => by rw [i5]; exact hh,
+          fun hb hrep hpos => by rw [i4.batch, i6]; rw [i4.rep] at hrep; rw [i6] at hpos; exact hb hrep hpos⟩
       · simp only [hp] at hnp; cases hnp
 
 theorem issueBatch_ctxs (s : State) (bank' : Bank) (c : CtxId) (x : Ctx) (el : List (Addr × Nat)) (ep : List Effect) :
@@ -204,18 +232,26 @@ theorem newBatch_evol (s : State) (c : CtxId) (h : Inv s) : CtxsEvol s (newBatch
       · exact ctxsEvol_del rfl
       · split
         · exact CtxsEvol.refl s
-        · rename_i _ hrun
+        · rename_i hfull hrun
           have hrun' : x.state = .running := by simpa using hrun
+          have hnext : TotBound x → TotBound { x with batch := x.batch + 1, bstate := .running, respN := 0, reqN := 0, bthr := x.thr } := by
+            intro _ hrep hpos
+            show ((x.batch + 1 : Nat) : Int) ≤ x.total
+            have hrep' : x.rep = true := hrep
+            have hpos' : 0 < x.total := hpos
+            by_cases hge : (x.batch : Int) ≥ x.total
+            · exact absurd ⟨hrun', hrep', by omega, hge⟩ hfull
+            · omega
           have hnotc : x.state = .completed → False := by rw [hrun']; intro e; cases e
           have hstep : CtxsEvol s (startOrSkip s c x).1 := by
             unfold startOrSkip
             split
             · split
-              · exact ctxsEvol_set hx (issueBatch_ctxs ..) ⟨rfl, rfl, rfl, rfl, rfl, Nat.le_succ _, fun e => (hnotc e).elim⟩
+              · exact ctxsEvol_set hx (issueBatch_ctxs ..) ⟨rfl, rfl, rfl, rfl, rfl, Nat.le_succ _, fun e => (hnotc e).elim, fun hb hrep hpos => hnext hb hrep hpos⟩
               · cases hb : bankSend s.bank x.cons s.cfg.escrow (sumPrices (eligible s x)) with
-                | some bk => exact ctxsEvol_set hx (issueBatch_ctxs ..) ⟨rfl, rfl, rfl, rfl, rfl, Nat.le_succ _, fun e => (hnotc e).elim⟩
-                | none => exact ctxsEvol_set hx rfl ⟨rfl, rfl, rfl, rfl, rfl, Nat.le_refl _, fun e => (hnotc e).elim⟩
-            · exact ctxsEvol_set hx rfl ⟨rfl, rfl, rfl, rfl, rfl, Nat.le_succ _, fun e => (hnotc e).elim⟩
+                | some bk => exact ctxsEvol_set hx (issueBatch_ctxs ..) ⟨rfl, rfl, rfl, rfl, rfl, Nat.le_succ _, fun e => (hnotc e).elim, fun hb hrep hpos => hnext hb hrep hpos⟩
+                | none => exact ctxsEvol_set hx rfl ⟨rfl, rfl, rfl, rfl, rfl, Nat.le_refl _, fun e => (hnotc e).elim, fun h => h⟩
+            · exact ctxsEvol_set hx rfl ⟨rfl, rfl, rfl, rfl, rfl, Nat.le_succ _, fun e => (hnotc e).elim, fun hb hrep hpos => hnext hb hrep hpos⟩
           exact hstep
 
 theorem foldH_evol {α : Type} (hd : State → α → HRes) (P : State → Prop)
